@@ -72,7 +72,7 @@ package validators
 //@ ensures (result1 == nil) == aliasOK(attr)
 //@ ensures implies(result1 == nil, (result0 != nil) == aliasSet(attr))
 //@ ensures implies(result1 == nil && result0 != nil, *result0 == aliasVal(attr))
-//@ ensures implies(result1 != nil, result0 == nil && result1.Severity == diagnostics.DiagnosticError && result1.FilePath == v.receiver.Annotations.fileName)
+//@ ensures implies(result1 != nil, result0 == nil && result1.Severity == diagnostics.DiagnosticError && result1.FilePath == v.receiver.Annotations.fileName && result1.Code == string(diagnostics.DiagAnnotationPropertiesInvalidValueForKey))
 //@ spec aliasOrName(a annotations.Attribute) string = ite(aliasSet(a), aliasVal(a), a.Value)
 //@ func AnnotationLinkValidator.getPathAliasOrName props C10,C14
 //@ requires v.receiver != nil && v.receiver.Annotations != nil
@@ -114,6 +114,10 @@ package validators
 //@ ensures seenNew: forall(j, 0, len(v.groupedAttributes.path), implies(indom(v.funcParamNames, pathAt(v, j).Value), indom(seenFuncParams, pathAt(v, j).Value)))
 //@ ensures seenOnly: forall(x, string, implies(indom(seenFuncParams, x) && !old(indom(seenFuncParams, x)), indom(v.funcParamNames, x) && exists(j, 0, len(v.groupedAttributes.path), pathAt(v, j).Value == x)))
 //@ ensures sev: forall(d, 0, len(result), result[d].Severity == diagnostics.DiagnosticError && result[d].FilePath == v.receiver.Annotations.fileName)
+// a diagnostic carries the code of the rule that was violated (C18): linker-duplicate-path-alias-ref only for an alias
+// used twice, linker-duplicate-path-param only for a value used twice
+//@ ensures aliasCode: forall(d, 0, len(result), implies(result[d].Code == string(diagnostics.DiagLinkerDuplicatePathAliasRef), exists(k, 0, len(v.groupedAttributes.path), hasAlias(pathAt(v, k)) && exists(j, 0, k, hasAlias(pathAt(v, j)) && aliasVal(pathAt(v, j)) == aliasVal(pathAt(v, k))))))
+//@ ensures valueCode: forall(d, 0, len(result), implies(result[d].Code == string(diagnostics.DiagLinkerDuplicatePathParam), exists(k, 0, len(v.groupedAttributes.path), exists(j, 0, k, pathAt(v, j).Value == pathAt(v, k).Value))))
 //@ loop 0 invariant 0 <= _n && _n <= len(v.groupedAttributes.path) && fresh(diags)
 //@ loop 0 invariant forall(x, string, indom(v.funcParamNames, x) == old(indom(v.funcParamNames, x)))
 //@ loop 0 invariant forall(x, string, indom(seenRefValues, x) == exists(j, 0, _n, pathAt(v, j).Value == x))
@@ -125,6 +129,8 @@ package validators
 //@ loop 0 invariant implies(len(diags) == 0, forall(k, 0, _n, indom(v.funcParamNames, pathAt(v, k).Value) && !old(indom(seenFuncParams, pathAt(v, k).Value)) && !exists(j, 0, k, pathAt(v, j).Value == pathAt(v, k).Value) && aliasOK(pathAt(v, k)) && implies(hasAlias(pathAt(v, k)), !exists(j, 0, k, hasAlias(pathAt(v, j)) && aliasVal(pathAt(v, j)) == aliasVal(pathAt(v, k))) && exists(u, 0, len(v.urlParams), v.urlParams[u] == aliasVal(pathAt(v, k))))))
 //@ loop 0 invariant implies(len(diags) > 0, exists(k, 0, _n, !(indom(v.funcParamNames, pathAt(v, k).Value) && !old(indom(seenFuncParams, pathAt(v, k).Value)) && !exists(j, 0, k, pathAt(v, j).Value == pathAt(v, k).Value) && aliasOK(pathAt(v, k)) && implies(hasAlias(pathAt(v, k)), !exists(j, 0, k, hasAlias(pathAt(v, j)) && aliasVal(pathAt(v, j)) == aliasVal(pathAt(v, k))) && exists(u, 0, len(v.urlParams), v.urlParams[u] == aliasVal(pathAt(v, k)))))))
 //@ loop 0 invariant forall(d, 0, len(diags), diags[d].Severity == diagnostics.DiagnosticError && diags[d].FilePath == v.receiver.Annotations.fileName)
+//@ loop 0 invariant forall(d, 0, len(diags), implies(diags[d].Code == string(diagnostics.DiagLinkerDuplicatePathAliasRef), exists(k, 0, _n, hasAlias(pathAt(v, k)) && exists(j, 0, k, hasAlias(pathAt(v, j)) && aliasVal(pathAt(v, j)) == aliasVal(pathAt(v, k))))))
+//@ loop 0 invariant forall(d, 0, len(diags), implies(diags[d].Code == string(diagnostics.DiagLinkerDuplicatePathParam), exists(k, 0, _n, exists(j, 0, k, pathAt(v, j).Value == pathAt(v, k).Value))))
 
 // The set of parameter names the checks below consult
 //@ func getReceiverParamsNameSet props C10,C14
